@@ -13,6 +13,7 @@ import (
 	"path/filepath"
 	"strconv"
 	"strings"
+	"sync"
 	"testing"
 	"testing/synctest"
 	"time"
@@ -28,10 +29,48 @@ func vfSeedTC() int64 {
 }
 
 type vfTCOp struct {
-	Op  string `json:"op"`
-	ID  int    `json:"id,omitempty"`
-	D   int64  `json:"d_ms,omitempty"`
-	Res bool   `json:"res"`
+	Op   string `json:"op"`
+	ID   int    `json:"id,omitempty"`
+	D    int64  `json:"d_ms,omitempty"`
+	Res  bool   `json:"res"`
+	ResL []bool `json:"results,omitempty"` // "addc": the results of the concurrent Add calls
+}
+
+// vfRunTCConc: rounds of G Add calls of one fresh (or, every fourth round, already present) id released together from G
+// goroutines; whatever the interleaving inside Add, exactly one call adds a fresh id and none a present one.
+func vfRunTCConc(t *testing.T, lastSeen bool, rounds, G int) []vfTCOp {
+	var out []vfTCOp
+	synctest.Test(t, func(t *testing.T) {
+		var c TimeCache
+		if lastSeen {
+			c = newLastSeenCacheWithSweepInterval(time.Hour, time.Hour)
+		} else {
+			c = newFirstSeenCacheWithSweepInterval(time.Hour, time.Hour)
+		}
+		defer c.Done()
+		for r := 0; r < rounds; r++ {
+			id := r
+			if r%4 == 3 {
+				id = r - 1 // added in the round before
+			}
+			res := make([]bool, G)
+			start := make(chan struct{})
+			var wg sync.WaitGroup
+			for g := 0; g < G; g++ {
+				wg.Add(1)
+				go func(g int) {
+					defer wg.Done()
+					<-start
+					res[g] = c.Add(fmt.Sprint(id))
+				}(g)
+			}
+			synctest.Wait()
+			close(start)
+			wg.Wait()
+			out = append(out, vfTCOp{Op: "addc", ID: id, ResL: res})
+		}
+	})
+	return out
 }
 
 func vfRunTC(t *testing.T, lastSeen bool, ttl, interval time.Duration, script []vfTCOp) []vfTCOp {
@@ -84,6 +123,12 @@ func TestVF_C02TimeCache(t *testing.T) {
 					expired = true
 				}
 				seenBefore[o.ID] = true
+			case "addc":
+				var bl []string
+				for _, b := range o.ResL {
+					bl = append(bl, fmt.Sprint(b))
+				}
+				ops = append(ops, fmt.Sprintf("TAddC %d [%s]", o.ID, strings.Join(bl, "; ")))
 			case "has":
 				ops = append(ops, fmt.Sprintf("THas %d %v", o.ID, o.Res))
 			case "sleep":
@@ -154,6 +199,16 @@ func TestVF_C02TimeCache(t *testing.T) {
 		ls := rng.Intn(2) == 0
 		emit(ls, ttl, interval, vfRunTC(t, ls, ttl, interval, script))
 	}
+	// concurrent Add calls of one id (real goroutines released together)
+	nconc := 8000
+	if thorough {
+		nconc = 20000
+	}
+	for _, ls := range []bool{false, true} {
+		for k := 0; k < nconc; k += 500 {
+			emit(ls, time.Hour, time.Hour, vfRunTCConc(t, ls, 500, 16))
+		}
+	}
 	shard := 400
 	nsh := 0
 	for i := 0; i < len(lits); i += shard {
@@ -172,7 +227,7 @@ func TestVF_C02TimeCache(t *testing.T) {
 		nsh++
 	}
 	st := map[string]any{"name": "c02tc", "cases": len(lits), "distinct": len(hashes), "distinct_nontrivial": nontriv,
-		"rule": "both cache implementations under synctest: every op sequence up to the stated length over {Add, Has} x 2 ids and sleeps that land before / at / after expiry and expiry+sweep interval, plus random sequences with random ttl and interval; non-trivial = an id was re-added after having been forgotten; distinct = hash of parameters+ops+results",
+		"rule": "both cache implementations under synctest: every op sequence up to the stated length over {Add, Has} x 2 ids and sleeps that land before / at / after expiry and expiry+sweep interval, plus random sequences with random ttl and interval, plus rounds of sixteen Add calls of one id released together from sixteen goroutines (exactly one adds a fresh id, none a present one); non-trivial = an id was re-added after having been forgotten; distinct = hash of parameters+ops+results",
 		"kinds": kinds, "samples": recs[len(recs)-2:], "shards": nsh, "seed": vfSeedTC(), "extra": map[string]any{"exhaustive_sequences": nexh, "exhaustive_len": L}}
 	js, _ := json.MarshalIndent(st, "", " ")
 	os.WriteFile(filepath.Join(dir, "stats_c02tc.json"), js, 0o644)
